@@ -375,6 +375,41 @@ def run(prog, chk):
                 ends.append((b["id"], i))
     events = [i for i in q.calls(f) if re.search(r"this->_threads\.(append|remove)\(", f.r(i))]
     events += [s.node for s in q.stores(f) if f.r(s.lhs) == "this->_threadCount"]
+    # C10.h: the count follows the workers: +1 with every worker context created, -1 with every retire ticket that was queued
+    chk.rule("C10.h", "PAIRF: `_threadCount` is incremented on every path that appends a worker context and decremented exactly on the success "
+                      "edge of queueing a retire ticket (a null job)", floor=2)
+    incs = [s.node for s in q.stores(f) if f.r(s.lhs) == "this->_threadCount" and s.op in ("++", "+=")]
+    decs = [s.node for s in q.stores(f) if f.r(s.lhs) == "this->_threadCount" and s.op in ("--", "-=")]
+    apps = [i for i in q.calls(f) if re.search(r"this->_threads\.append\(", f.r(i))]
+    if apps and incs and all(C.paths_all_pass(f, f.node_pos(a_), q.pos_of(f, incs)) for a_ in apps) and all(C.paths_all_pass(f, f.node_pos(i_), q.pos_of(f, apps)) for i_ in incs):
+        chk.ok("C10.h", f, "++_threadCount paired with _threads.append()", f.where(apps[0]), "each on every path through the other", evals=2)
+    else:
+        chk.bad("C10.h", f, "thread-count-not-incremented-with-worker", "%s:%s" % (f.file, f.line), "a worker context is appended without `++_threadCount` on the same path (or the other way round)")
+    # retire tickets: pushes of a job whose proc is null
+    tickets = []
+    for c_ in q.calls(f):
+        if re.search(r"LockFreeQueue(<.*>)?::push$", f.nodes[c_].get("callee", "")) and q.call_args(f, c_):
+            a0 = f.nodes[f.strip(q.call_args(f, c_)[0])]
+            if a0["k"] == "DeclRefExpr" and a0["ref"].get("dk") == "local":
+                init_ = q.single_def(f, a0["ref"]["id"])
+                if init_ is not None and re.match(r"^\{?\(?0", q.no_casts(f.r(init_)).replace("Future::Private::Job", "").strip("{( ")):
+                    tickets.append(c_)
+    if not tickets:
+        raise AnalysisBroken("ThreadPool::run: the retire-ticket push (a job with a null proc) was not found")
+    for t_ in tickets:
+        kt = fin.key(f, t_)
+        good = False
+        for d_ in decs:
+            at = fin.dominating_atoms(f, f.node_pos(d_))
+            if any(a[0] != "case" and t_ in f.desc(a[0]) and fin.eval_expr(f, a[0], {kt: 1}) is not None and bool(fin.eval_expr(f, a[0], {kt: 1})) == a[1]
+                   and bool(fin.eval_expr(f, a[0], {kt: 0})) != a[1] for a in at):
+                good = True
+        if good:
+            chk.ok("C10.h", f, "--_threadCount on the success edge of the retire-ticket push", f.where(t_), "dominating atom on the push result", evals=2)
+        else:
+            chk.bad("C10.h", f, "retired-worker-not-subtracted", f.where(t_),
+                    "a retire ticket is queued but `_threadCount` is not decremented on its success edge: the pool keeps believing the worker exists, "
+                    "retires the remaining ones and never spawns a replacement (started calls are never executed)")
     for ev in events:
         p = f.node_pos(ev)
         alive = False
